@@ -53,7 +53,7 @@ RULE = ("qsieve64::qsieve directly on u64: every reachable n (no prime factor <=
         "size 17..64 bits and every split, products of 3-4 primes >= 211, numbers next to 2^64/k for k < 30 (checked_add boundary of select_multiplier), squares and "
         "prime powers (early exit), n = s*m^2 with small s (n*k a perfect square: second early exit), numbers divisible by factor-base primes, the unit test's range "
         "2^49.., primes, and unguarded inputs 0..400 and even numbers (panics inside final_step: known findings); K through follow-ups with the real k and the real "
-        "kernel; O: every relation handed to final_step is a congruence mod n over the reported factor base, the factor base is exactly the small primes with n*k a "
+        "kernel; a recorded list of 126 reachable semiprimes of 17..64 bits (24 with n*k >= 2^62) must stay split (deterministic completeness floor); O: every relation handed to final_step is a congruence mod n over the reported factor base, the factor base is exactly the small primes with n*k a "
         "quadratic residue, the result is None or a proper split")
 # QS64_ACCEPT_UNGUARDED=1: the three documented behaviours on inputs factor() never passes (finding keys below) are accepted by the oracle
 # instead of being reported as (known) findings: for a stand-alone `./check C03_QS64` before the entries exist in known_findings.json
@@ -63,6 +63,46 @@ FINDING_TINY = "qs64-direct-tiny-n-unreduced-operand"
 FINDING_NK = "qs64-direct-n-equals-k"
 
 W = 1 << 64
+# Completeness floor (the oracle otherwise accepts `None`: the 64 blocks do not always suffice - measured on the unchanged code: 75 % / 55 % /
+# 25 % of random reachable 62 / 63 / 64-bit semiprimes are split, above 99 % below 56 bits - so no rate is judged). qsieve is deterministic
+# (the HashMap is never iterated), hence a FIXED list of reachable semiprimes n = p * q that the code splits today must stay split: two per
+# bit length 17..55, four per 56..61, eight per 62..64 with n * k >= 2^62 (nsqrt >= 2^31), balanced and 1:2 splits, k = 1 and k > 1.
+# Recorded 2026-09-26 on /repo 9a443f1+f24afb6, both profiles. n -> smaller prime factor.
+FIXED_SPLITS = {
+    91363: 211, 99653: 227, 145237: 311, 147463: 239,
+    360991: 467, 406529: 223, 1034273: 1013, 714269: 223,
+    1238053: 661, 1608031: 211, 3145421: 1583, 3758753: 239,
+    6879449: 1759, 7504499: 241, 9143951: 2999, 11466163: 233,
+    21487877: 3919, 23997241: 211, 44832941: 5503, 48337703: 223,
+    127933853: 7927, 84458219: 401, 158032319: 11597, 166441939: 349,
+    452427629: 15427, 412890853: 401, 541306393: 21011, 672497249: 967,
+    1887442523: 32363, 1641460631: 977, 2484446579: 37967, 2860819063: 1019,
+    6777495059: 53069, 6110040383: 1847, 9107683831: 77003, 11501304589: 1523,
+    24480221123: 130619, 27178821251: 1637, 35260136479: 166919, 34555922111: 3371,
+    113692244363: 259991, 135793221269: 4073, 201542932859: 445321, 227609300993: 3733,
+    376759566947: 505907, 332852991719: 5659, 929347116937: 906973, 721404726187: 6607,
+    1545779422483: 841931, 1269912913957: 7529, 3464277125461: 1658359, 2215166293133: 8429,
+    4931879853289: 1997467, 5406082991999: 10559, 10278517557463: 2962417, 10070841800827: 9787,
+    27108536164753: 3967837, 19928130345107: 32719, 35312786084833: 4731487, 46490083922083: 25153,
+    97719864267551: 6377461, 83151446403301: 26203, 155656787614651: 9829037, 152740535821283: 37657,
+    361399502887681: 13817267, 315467709095009: 39343, 842652075755213: 28451173, 712542758513479: 45589,
+    2009795303179003: 32186677, 1655149398474269: 118747, 2664881966436761: 45072761, 2716775709177731: 96167,
+    5724521174249561: 50540603, 4787403696376363: 89363, 9353534621834153: 78274463, 9585949382469311: 207569,
+    29910395941976699: 130155007, 26561877996427199: 235489, 36699028467458473: 152157487, 42927931673391917: 247853,
+    45030580658433949: 169035241, 53550190562104091: 221047, 115433862843738443: 222106987, 83560186150669661: 415631,
+    99090013742358451: 255644863, 72737609800424683: 486163, 169800105637624513: 362379601, 225084786044061949: 478481,
+    201144141515525111: 409899319, 271481098447003399: 498733, 415828060568946737: 406367317, 493882888209573827: 510121,
+    306557140915920277: 455732653, 419834389577849711: 414857, 680473477195971553: 822815899, 610220165223241759: 569321,
+    616671688115128097: 742103917, 889309447263758993: 923617, 1514916644209575259: 952284779, 1615863943162887181: 984149,
+    1496559844872998803: 750262259, 1362371760754691153: 760841, 3342066241951520507: 1646706829, 2493814944516642863: 1410300449,
+    2916601471288734623: 1039817, 2903194499624495567: 1673538553, 2626453759028305243: 752291, 3278436195322817173: 1705258889,
+    3311785326733768919: 791311, 2326104200848426213: 1301683363, 8334006125137191689: 1989768733, 4786686093229187491: 1537295231,
+    4737186263565676537: 1631731, 5662701515836543049: 1769501, 5059238085763060607: 1938969449, 6014771172042360677: 1905499,
+    8338375355075994383: 1943990317, 5027183705019262307: 1511329, 11058119704125463397: 2022187, 13798059805671701737: 1639201,
+    17045968099839097273: 4119486799, 17600220409130586509: 2079601, 9853607568917149997: 1867729, 9649689419786198137: 1457483,
+    10358073198455825753: 2457161747, 15263568446629202599: 3594329633,
+}
+
 SMALL = [p for p in range(2, 200) if all(p % q for q in range(2, p))]
 
 
@@ -105,9 +145,16 @@ def cases(tier, rng, extended=False):
             yield Case(f"qs64 {n}", k=False, o=True, tag=tag)
         else:
             # unguarded input: debug assertions inside final_step differ between the profiles; the model is the checked profile
-            yield Case(f"qs64 {n}", k=False, o=True, tag=tag, profiles=["chk"])
+            # (two cases, one per profile: a checked-profile-only panic is accepted on the first only, see _documented)
+            yield Case(f"qs64 {n}", k=False, o=True, tag=tag + "/chk", profiles=["chk"])
             yield Case(f"qs64 {n}", k=False, o=True, tag=tag + "/noK", profiles=["release"])
 
+    # 0. the recorded list of the completeness floor (quick: every third below 56 bits, every second of 56..61 bits, all of 62..64 bits)
+    for i, n in enumerate(FIXED_SPLITS):
+        b = n.bit_length()
+        if quick and not extended and ((b < 56 and i % 3) or (56 <= b < 62 and i % 2)):
+            continue
+        yield from emit(n, "fixed-split")
     # 1. every reachable n below a bound (the smallest is 211 * 223 = 47053)
     bound = 200_000 if not extended else 400_000
     ps = [p for p in range(211, bound // 211 + 1) if gen.is_prime(p)]
@@ -253,9 +300,20 @@ def check_rels(n, k, body):
     return None
 
 
+def _documented(case, ans):
+    """one of the documented behaviours on inputs factor() never passes. The oracle is not told the build profile: the two behaviours that
+    occur in BOTH profiles (even n, n = k) are accepted on any case; the checked-profile-only one (debug_assert!(x < n) inside final_step for a
+    tiny odd n) only on a case that the generator restricted to the checked profile (Case.profiles == ["chk"]) - the same input is also
+    generated as a release-only case, where a panic is a failure."""
+    if finding_key(case, ans, "release"):
+        return True
+    only_chk = case.profiles is not None and list(case.profiles) == ["chk"]
+    return only_chk and finding_key(case, ans, "chk") == FINDING_TINY
+
+
 def oracle(case, ans):
     msg = _oracle(case, ans)
-    if msg and ACCEPT_UNGUARDED and finding_key(case, ans, "chk"):
+    if msg and ACCEPT_UNGUARDED and _documented(case, ans):
         return None
     return msg
 
@@ -286,6 +344,10 @@ def _oracle(case, ans):
     # qs64
     res = rest.partition(" ")[2] if rest.startswith("kernel=") else rest
     if res == "none":
+        if n in FIXED_SPLITS:
+            p = FIXED_SPLITS[n]
+            return (f"qsieve({n}) returned None: completeness floor - the function is deterministic and split this recorded input "
+                    f"({p} * {n // p}, {n.bit_length()} bits) when the list was recorded")
         return None
     if res == "panic":
         if reachable(n):
